@@ -9,21 +9,6 @@ Open Scope nat_scope.
 Set Warnings "-unused-intro-pattern".
 #[local] Opaque FUEL.
 
-(* facts that survive a write to the dict of an instance cell *)
-Definition istable (F : heap_t -> Prop) : Prop :=
-  forall h l cl d d', nth_error h l = Some (OInst cl d) -> F h -> F (set_nth l (OInst cl d') h).
-
-Definition xstable (F : heap_t -> Prop) : Prop := cstable F /\ istable F.
-
-Lemma xstable_true : xstable (fun _ => True).
-Proof. split; [apply cstable_true|intros h l cl d d' _ _; exact I]. Qed.
-
-Lemma xstable_and F G : xstable F -> xstable G -> xstable (fun h => F h /\ G h).
-Proof.
-  intros [C1 I1] [C2 I2]. split; [now apply cstable_and|].
-  intros h l cl d d' N [H1 H2]. split; eauto.
-Qed.
-
 (* l is an instance of class cl *)
 Definition is_inst (l : loc) (cl : cid) (h : heap_t) : Prop := exists d, nth_error h l = Some (OInst cl d).
 
@@ -62,8 +47,9 @@ Qed.
 Section Gen.
   Variable ct : ctable.
   Hypothesis Hflat : flat_table ct.
-  Hypothesis Hninv : no_inval_table ct.
-  Variable rec : call -> M val.
+  Hypothesis Hninv : inval_spec ct.
+  Variable fuel0 : nat.
+  Notation rec := (exec ct fuel0).
   Notation Inv := (Inv ct).
 
   Lemma raw_setattr_frame l a v F :
@@ -84,11 +70,11 @@ Section Gen.
 
   (* mutate_attr(..., inplace=True) with any force / skip flags, keeping a frame *)
   Theorem mutate_attr_inplace_gen l a v tc force skip F :
-    istable F ->
+    xstable F ->
     T (fun h => (Inv h /\ F h) /\ storable l a v h /\ (tc = false -> conforms_at ct l a v h))
       (mutate_attr ct rec l a v true tc force skip) (fun _ h => Inv h /\ F h) (fun h => Inv h /\ F h).
   Proof.
-    intro SF. unfold mutate_attr. destruct (is_sentinel v); [apply T_ret; tauto|].
+    intros [SFc SF]. unfold mutate_attr. destruct (is_sentinel v); [apply T_ret; tauto|].
     set (P := fun h => (Inv h /\ F h) /\ storable l a v h /\ (tc = false -> conforms_at ct l a v h)).
     assert (PE : forall h, P h -> Inv h /\ F h) by (unfold P; tauto).
     eapply T_bind; [apply T_read_inst; exact PE|]. intros [cl d]. cbn [fst snd].
@@ -120,14 +106,14 @@ Section Gen.
     eapply T_bind with (Q := fun _ h => Inv h /\ F h); [|intros ?; apply T_ret; auto].
     apply T_thawed_false; [tauto|].
     eapply T_bind; [apply raw_setattr_frame; auto|]. intros ?.
-    destruct skip; [apply T_ret; auto|apply invalidate_noop; auto; tauto].
+    destruct skip; [apply T_ret; auto|apply (Hninv fuel0 l a F (conj SFc SF))].
   Qed.
 End Gen.
 
 Section SetAttrGen.
   Variable ct : ctable.
   Hypothesis Hflat : flat_table ct.
-  Hypothesis Hninv : no_inval_table ct.
+  Hypothesis Hninv : inval_spec ct.
   Notation Inv := (Inv ct).
 
   (* setattr with flags and a frame, on an instance of class cl whose attribute a is a leaf;
@@ -153,7 +139,7 @@ Section SetAttrGen.
                             (fun _ h => (Inv h /\ F h) /\ is_inst l cl h)
                             (fun h => (Inv h /\ F h) /\ is_inst l cl h)).
     { intros value. eapply T_conseq;
-        [apply (mutate_attr_inplace_gen ct Hflat Hninv (exec ct fuel) l a value true force skip G (proj2 SG))| | |exact GE].
+        [apply (mutate_attr_inplace_gen ct Hflat Hninv fuel l a value true force skip G SG)| | |exact GE].
       - intros h [[I1 G1] L1]. split; [split; auto|]. split; [left; exact L1|discriminate].
       - intros r h H. apply GE. exact H. }
     destruct (lookup_attr k a) as [sp|] eqn:Ha.
@@ -206,7 +192,7 @@ Qed.
 Section Defaults.
   Variable ct : ctable.
   Hypothesis Hflat : flat_table ct.
-  Hypothesis Hninv : no_inval_table ct.
+  Hypothesis Hninv : inval_spec ct.
   Notation Inv := (Inv ct).
 
   Lemma protect_nonref v s : nonref v -> protect ct v s = (Ok v, s).
@@ -261,7 +247,8 @@ Section Defaults.
         apply T_write. intros h [[I1 G1] N1]. split; [apply nth_error_Some; congruence|].
         split; [now apply Inv_delete|]. eapply (proj2 SG); eauto.
       - intros ?. eapply T_bind with (Q := fun _ h => IF ct G h).
-        + destruct skip; [apply T_ret; auto|apply invalidate_noop; auto].
+        + destruct skip; [apply T_ret; auto|].
+          eapply T_conseq; [apply (Hninv fuel l a G SG)|auto|auto|exact GE].
         + intros ?. apply T_ret. exact GE. }
     refine ((_ : T (IF ct G) _ (fun _ h => (Inv h /\ F h) /\ is_inst l cl h)
                    (fun h => (Inv h /\ F h) /\ is_inst l cl h)) s _);
@@ -278,7 +265,7 @@ Section Defaults.
           [apply (prepare_attr_value_any ct Hflat fuel sp l dv G Hl (proj1 SG))
           | auto | auto | exact GE].
       + intros value. eapply T_conseq;
-          [apply (mutate_attr_inplace_gen ct Hflat Hninv (exec ct fuel) l a value true true skip G (proj2 SG))| | |exact GE].
+          [apply (mutate_attr_inplace_gen ct Hflat Hninv fuel l a value true true skip G SG)| | |exact GE].
         * intros h [[I1 G1] L1]. split; [split; auto|]. split; [left; exact L1|discriminate].
         * intros r h H. apply GE. exact H.
   Qed.
@@ -334,7 +321,7 @@ End Defaults.
 Section Ctor.
   Variable ct : ctable.
   Hypothesis Hflat : flat_table ct.
-  Hypothesis Hninv : no_inval_table ct.
+  Hypothesis Hninv : inval_spec ct.
   Hypothesis Hres : no_reserved_names ct.
   Notation Inv := (Inv ct).
 
@@ -519,7 +506,7 @@ End Ctor.
 Section Resets.
   Variable ct : ctable.
   Hypothesis Hflat : flat_table ct.
-  Hypothesis Hninv : no_inval_table ct.
+  Hypothesis Hninv : inval_spec ct.
   Hypothesis Hres : no_reserved_names ct.
   Notation Inv := (Inv ct).
   Notation rec := (exec ct XFUEL).
